@@ -336,6 +336,27 @@ def run_fs(desc):
                     elif sa_ and i_ & 15:
                         out.nontrivial(('fs-reach', ti, t_, fl_))
 
+            # WcMatch with empty / missing / exclusion-only patterns: the bytes walk returns and skips what the str walk does
+            for wfl_ in (0, WM.RECURSIVE, WM.RECURSIVE | WM.HIDDEN, WM.RECURSIVE | WM.HIDDEN | WM.SYMLINKS, WM.RECURSIVE | WM.FILEPATHNAME | WM.HIDDEN):
+                for fp_, ep_ in (('', ''), (None, None), ('*', ''), ('', 'd'), ('!a', ''), ('*|!a*', 'd|!d'), ('*.txt', None)):
+                    try:
+                        with util.watchdog(6), util.ScandirCounter(3000):
+                            wa_ = WM.WcMatch(root, fp_, ep_, flags=wfl_)
+                            ra_ = wa_.match()
+                            wb_ = WM.WcMatch(broot, None if fp_ is None else enc(fp_), None if ep_ is None else enc(ep_), flags=wfl_)
+                            rb_ = wb_.match()
+                    except util.HarnessBudget:
+                        out.stats['watchdog_skipped'] += 1
+                        continue
+                    out.evaluations += 1
+                    if [os.fsencode(x) for x in ra_] != rb_ or wa_.get_skipped() != wb_.get_skipped():
+                        out.violation({'mode': 'fs', 'api': 'WcMatch', 'pattern': fp_, 'exclude_pattern': ep_, 'flags': wfl_, 'tree': ti,
+                                       'str': [os.path.relpath(x, root) for x in ra_][:8], 'bytes': [os.path.relpath(os.fsdecode(x), root) for x in rb_][:8],
+                                       'skipped': [wa_.get_skipped(), wb_.get_skipped()],
+                                       'problem': 'bytes walk differs from str walk (results or skipped count)'}, bucket=('fs-wcmatch-fixed', str(fp_)))
+                    elif ra_:
+                        out.nontrivial(('fs-wcmatch-fixed', ti, fp_, ep_, wfl_))
+
             @seed(desc['seed'] + ti)
             @util.hyp_settings(desc['n'], shrink=False)
             @given(st.lists(pat, min_size=1, max_size=2), st.lists(st.sampled_from(gflags), max_size=5, unique=True),
@@ -441,6 +462,13 @@ def replay(case):
                 names = [case['name'], case['name'].rstrip('/'), case['name'].rstrip('/') + '/']
                 a = G.globfilter(names, case['pattern'], flags=case['flags'] | G.REALPATH, root_dir=root)
                 b = G.globfilter([os.fsencode(n) for n in names], enc(case['pattern']), flags=case['flags'] | G.REALPATH, root_dir=broot)
+            elif case['api'] == 'WcMatch' and 'exclude_pattern' in case:
+                fp_, ep_ = case['pattern'], case['exclude_pattern']
+                wa_ = WM.WcMatch(root, fp_, ep_, flags=case['flags'])
+                wb_ = WM.WcMatch(broot, None if fp_ is None else enc(fp_), None if ep_ is None else enc(ep_), flags=case['flags'])
+                a, b = wa_.match(), wb_.match()
+                if wa_.get_skipped() != wb_.get_skipped():
+                    return False, {'skipped': [wa_.get_skipped(), wb_.get_skipped()]}
             elif case['api'] == 'WcMatch':
                 a = WM.WcMatch(root, case['pattern'], 'e', flags=case['flags']).match()
                 b = WM.WcMatch(broot, enc(case['pattern']), b'e', flags=case['flags']).match()
